@@ -8,6 +8,7 @@ package main
 // the whole input and nothing else.
 
 import (
+	"os"
 	"sort"
 	"strings"
 
@@ -596,10 +597,13 @@ func decorate(t irgen.Term, full bool) []irgen.Term {
 		nulls = append(nulls, true)
 	}
 	for _, n := range nulls {
-		for _, d := range []string{"", "scalar", "list", "map"} {
+		for _, d := range []string{"", "scalar", "list", "map", "zero", "emptylist", "emptymap"} {
 			for h := 0; h <= 1; h++ {
-				if !full && !(d == "" && h == 0) && !(n && d == "scalar" && h == 0) && !(!n && d == "list" && h == 1) {
+				if !full && !(d == "" && h == 0) && !(n && d == "scalar" && h == 0) && !(!n && d == "list" && h == 1) && !(!n && d == "zero" && h == 0) {
 					continue
+				}
+				if h == 1 && (d == "zero" || d == "emptylist" || d == "emptymap") {
+					continue // hints are irrelevant to defaults: the zero/empty flavours come without
 				}
 				c := t
 				c.Nullable, c.Default, c.Hints = n, d, h
@@ -716,6 +720,7 @@ func enumerate(thorough bool) ([]testCase, map[string]int) {
 		irgen.S("string"),
 		{K: "scalar", A: "string", Constr: true, Default: "scalar"},
 		{K: "scalar", A: "int64", Constr: true, Nullable: true},
+		{K: "scalar", A: "bool", Default: "zero"},
 		irgen.Const("str"),
 		irgen.Enum("str"),
 		irgen.Ref("p.S"),
@@ -744,7 +749,11 @@ func enumerate(thorough bool) ([]testCase, map[string]int) {
 				fs = append(fs, irgen.Field{Name: names[i], Required: x.req})
 				ts = append(ts, x.t)
 			}
-			add("multi-field", mkSpec("", pq, rootDef(irgen.StructN(fs, ts))))
+			fam := "multi-field"
+			if n > 3 {
+				fam = "multi-field-4"
+			}
+			add(fam, mkSpec("", pq, rootDef(irgen.StructN(fs, ts))))
 			return
 		}
 		for _, x := range fvs {
@@ -782,7 +791,11 @@ func enumerate(thorough bool) ([]testCase, map[string]int) {
 	var sub func(start int, cur []objDef)
 	sub = func(start int, cur []objDef) {
 		if len(cur) > 0 {
-			add("object-set", mkSpec("", pq, cur...))
+			fam := "object-set"
+			if len(cur) > 3 {
+				fam = "object-set-4"
+			}
+			add(fam, mkSpec("", pq, cur...))
 		}
 		if len(cur) == maxSet {
 			return
@@ -802,5 +815,49 @@ func enumerate(thorough bool) ([]testCase, map[string]int) {
 	for _, s := range irgen.SeedSchemas() {
 		add("seed", s)
 	}
+
+	// 7. the pipeline layer: the same schema sets through
+	// codegen.Pipeline.ContextForLanguage for every context configuration
+	// (see contextEligible for the families of each tier).
+	direct := len(cases)
+	for i := 0; i < direct; i++ {
+		tc := cases[i]
+		if !contextEligible(tc, thorough) {
+			continue
+		}
+		for _, lang := range contextConfigs {
+			cases = append(cases, testCase{family: "ctx:" + tc.family, lang: lang, spec: tc.spec})
+			families["ctx:"+tc.family]++
+		}
+	}
 	return cases, families
+}
+
+func contextEligible(tc testCase, thorough bool) bool {
+	if os.Getenv("VERIF_C16_NOCTX") != "" {
+		return false
+	}
+	if thorough {
+		// thorough tier: everything but the sets of four pool objects and the four-field structs
+		return tc.family != "object-set-4" && tc.family != "multi-field-4"
+	}
+	// quick tier: no object sets, no three-field structs and no hint-decorated
+	// variants at the pipeline layer (hints never reach builder derivation)
+	switch tc.family {
+	case "object-set":
+		return false
+	case "multi-field":
+		for _, p := range tc.spec.Pkgs {
+			for _, o := range p.Objects {
+				if o.Name == "Root" && len(o.T.Fields) > 2 {
+					return false
+				}
+			}
+		}
+	case "field", "object":
+		if strings.Contains(witness(tc.spec), "#h") {
+			return false
+		}
+	}
+	return true
 }
